@@ -95,7 +95,7 @@ def run_tlc(module, constants, workdir, invariants=(), properties=(), action_con
         f.write("\n".join(cfg) + "\n")
     meta = os.path.join(workdir, "meta")
     shutil.rmtree(meta, ignore_errors=True)
-    cmd = ["java", "-Xmx" + heap, "-XX:+UseParallelGC"] + list(java_opts) + [
+    cmd = ["java", "-Xmx" + heap, "-Xss512m", "-XX:+UseParallelGC"] + list(java_opts) + [
         "-cp", _classpath(), "tlc2.TLC", "-workers", str(workers), "-metadir", meta,
         "-noGenerateSpecTE", "-config", mc + ".cfg"]
     if coverage and not simulate:
